@@ -10,9 +10,19 @@ Observed here (cannot be modelled: platform ABI, libffi, dlopen/dlsym, buffer ow
   2. generated callees (harness/ffi/ffigen.py): each call must deliver every argument in its
      declared position with its exact value and return the callee's result; by-value struct
      images are compared with the extracted model's marshal image; missing library / symbol and
-     nil string / nil record arguments must raise ffi_fail without calling.
+     nil string / nil record arguments must raise ffi_fail without calling.  Arities 0..8 sampled densely; the
+     many-args family enumerates every arity 9..20 x a by-value record of every size class (register / memory) x
+     its position (first / middle / last), several big records per call, scalars only;
+  3. calls IN SEQUENCE (harness/ffi/ffiseq.c + ffiseqgen.py): several programs and VMs in one process; every
+     generated library and the executable (= "host") export the same symbols with different constants; library
+     names around the reserved word (prefixes, word + suffix, paths through it, aliases), existing and missing;
+     histories = (missing symbol / symbol of another loaded library / missing library / nil string / nil record,
+     caught or unhandled) x (same VM / other live VM / after vm_delete / second program) followed by valid calls,
+     one identity history per name, random histories.  The transcript required of every operation is computed
+     from the history alone: the DECLARED library is entered with the exact argument, a failing call enters none.
 Oracle of the search = the property itself (exact transcript).  Every failure is a
-ctx.violation with key "<signature class>:<failure kind>".
+ctx.violation with key "<signature class>:<failure kind>" (single calls) or
+"sequence:<role of the deviating operation>:<failure kind>" (histories).
 """
 LEVEL = "proof"
 
@@ -32,6 +42,7 @@ from lib import common
 
 sys.path.insert(0, os.path.join(common.VERIF, "harness", "ffi"))
 import ffigen  # noqa: E402
+import ffiseqgen  # noqa: E402
 from checks.parts import hashtab  # noqa: E402
 
 CORPUS = os.path.join(common.VERIF, "corpus", "C17")
@@ -331,6 +342,258 @@ def shrink(nevrun, tmp, case, key_of, key, budget=14):
 
 
 # ------------------------------------------------------------------------------------------
+# calls in sequence (harness/ffi/ffiseq.c + ffiseqgen.py): several programs and VMs in one process, valid calls
+# between calls that must end in ffi_fail, library names around the reserved word "host"
+class SeqRun:
+    def __init__(self, rc, out, err):
+        self.rc, self.err = rc, err
+        self.segs = []            # per announced operation: the lines up to the next announcement
+        self.ended = False
+        cur = None
+        for line in out.splitlines():
+            if line.startswith("@O "):
+                cur = []
+                self.segs.append(cur)
+            elif line.startswith("@END "):
+                self.ended = True
+            elif cur is not None and line.strip():
+                cur.append(line.rstrip())
+
+
+def seq_crash_kind(r):
+    o = Outcome()
+    o.noise = r.err.splitlines()
+    o.status = "0" if r.rc == 0 else ("signal %d" % -r.rc if r.rc < 0 else str(r.rc))
+    return crash_kind(o)
+
+
+def seq_judge(h, r):
+    """property oracle over one history: None, or (key, op index, kind, detail) of the FIRST deviation"""
+    exp = h.expected()
+    for i, (op, e) in enumerate(zip(h.ops, exp)):
+        if i >= len(r.segs):
+            # the process ended inside the previous operation (reported there) or before announcing this one
+            return ("sequence:%s:crash" % op[0], i, "crash", {"note": "the process ended before operation %d" % i})
+        seg = r.segs[i]
+        if any(l.startswith("@REFUSED") for l in seg):
+            return ("harness:refused", i, "refused", {"segment": seg})
+        died_here = (i == len(r.segs) - 1) and not r.ended
+        if op[0] == "prog":
+            if e["p"] not in seg:
+                if died_here:
+                    return ("sequence:compile:%s" % seq_crash_kind(r), i, seq_crash_kind(r), {"segment": seg[:6]})
+                return ("harness:compile-error", i, "compile-error", {"segment": seg[:8], "stderr": r.err[-600:]})
+            continue
+        if op[0] != "call":
+            if died_here:
+                k = seq_crash_kind(r)
+                return ("sequence:%s:%s" % (op[0], k), i, k, {"segment": seg[:6]})
+            continue
+        got_c = [l for l in seg if l.startswith("@C ")]
+        got_x = [l for l in seg if l.startswith("@X ")]
+        base = "sequence:%s" % e["role"]
+        detail = {"operation": " ".join(str(x) for x in op), "library_as_declared": e["lib"], "library_name_class": e["cls"],
+                  "expected": [x for x in (e["c"], e["x"] or "@X ret=<non-zero> res=-") if x], "observed": got_c + got_x}
+        if e["why"] is None:
+            if got_c == [e["c"]] and got_x == [e["x"]]:
+                continue
+            if not got_x:
+                kind = seq_crash_kind(r) if died_here else "no-result"
+                detail["callee_entered_with_exact_argument"] = got_c == [e["c"]]
+            elif not got_c and (got_x[0] == "@X ret=0 res=%d" % ffiseqgen.SENTINEL or not got_x[0].startswith("@X ret=0 ")):
+                kind = "unexpected-ffi-fail"
+            elif got_c and got_c[0].split(" ")[1] != e["c"].split(" ")[1]:
+                kind = "call-reached-another-library"
+            elif got_c != [e["c"]]:
+                kind = "arg-value"
+            else:
+                kind = "ret-value"
+            return (base + ":" + kind, i, kind, detail)
+        # the call must end in ffi_fail without entering any C function
+        if got_c:
+            return (base + ":called", i, "called", detail)
+        if not got_x:
+            kind = seq_crash_kind(r) if died_here else "no-result"
+            return (base + ":" + kind, i, kind, detail)
+        if (e["x"] is not None and got_x != [e["x"]]) or (e["x"] is None and got_x[0].startswith("@X ret=0 ")):
+            return (base + ":no-ffi-fail", i, "no-ffi-fail", detail)
+    if not r.ended or r.rc != 0:
+        k = seq_crash_kind(r)
+        return ("sequence:end-of-history:%s" % k, len(h.ops), k, {"exit_status": r.rc, "stderr_tail": r.err[-1500:]})
+    return None
+
+
+def run_sequences(ctx, lib, tmp):
+    drv0 = common.cc_driver("ffiseq", ["ffi/ffiseq.c"], lib, extra="-rdynamic")
+    drv = os.path.join(tmp, "ffiseq")
+    with common.Lock("cc.ffiseq"):
+        shutil.copy2(drv0, drv)
+    rng = random.Random(ctx.seed * 1000003 + 1717)
+    root = os.path.join(tmp, "seq")
+    libdir = os.path.join(root, "libs")
+    os.makedirs(libdir)
+    libs, names, hs = ffiseqgen.generate(rng, ctx.tier, libdir)
+    gen_n = len(hs)
+
+    def build_libs(ls, d):
+        def one(l):
+            dst = os.path.join(d, l.relfile)
+            os.makedirs(os.path.dirname(dst), exist_ok=True)
+            src = os.path.join(d, "src_%s.c" % l.tag)
+            with open(src, "w") as f:
+                f.write(l.c_source())
+            rc, so, se = common.sh(["gcc", "-O0", "-w", "-shared", "-fPIC", "-o", dst, src], timeout=120)
+            if rc != 0:
+                raise common.BuildError("sequence library failed to build (generator defect): " + se[-800:])
+        with ThreadPoolExecutor(NPROC) as ex:
+            list(ex.map(one, ls))
+
+    build_libs(libs, libdir)
+    # corpus: self-contained histories (their own libraries, in a directory of their own)
+    dirs = {}
+    corpus = []
+    if os.path.isdir(CORPUS):
+        for i, fn in enumerate(sorted(os.listdir(CORPUS))):
+            if fn.startswith("seq_") and fn.endswith(".json"):
+                try:
+                    sh_ = ffiseqgen.StoredHistory("k%03d" % i, json.load(open(os.path.join(CORPUS, fn))))
+                except Exception as e:
+                    print("NOTE corpus file %s unreadable: %s" % (fn, e))
+                    continue
+                d = os.path.join(root, "corpus%d" % i)
+                os.makedirs(d)
+                build_libs(sh_.libs, d)
+                dirs[sh_.hid] = d
+                sh_.corpus_file = fn
+                corpus.append(sh_)
+    hs = corpus + hs
+
+    counter = [0]
+
+    def run_one(h):
+        d = dirs.get(h.hid, libdir)
+        counter[0] += 1
+        tag = "%s_%d" % (h.hid, counter[0])
+        files = []
+        for k, p in enumerate(h.programs):
+            fn = os.path.join(root, "%s_p%d.nev" % (tag, k))
+            with open(fn, "w") as f:
+                f.write(p.source().replace("@LIBDIR@", d))
+            files.append(fn)
+        sc = os.path.join(root, "%s.txt" % tag)
+        with open(sc, "w") as f:
+            f.write("\n".join(h.script(lambda k: files[k])) + "\n")
+        env = dict(os.environ)
+        env["ASAN_OPTIONS"] = "detect_leaks=1:abort_on_error=0:allocator_may_return_null=1"
+        env["LD_LIBRARY_PATH"] = d
+        rc, so, se = common.sh([drv, sc], timeout=120, env=env, cwd=d)
+        return SeqRun(rc, so, se)
+
+    with ThreadPoolExecutor(NPROC) as ex:
+        runs = list(ex.map(run_one, hs))
+
+    stats = {"role": collections.Counter(), "lib_name_class": collections.Counter(), "family": collections.Counter(),
+             "operations": collections.Counter()}
+    failing = {}
+    calls = exact = 0
+    distinct = set()
+    broken = None
+    for h, r in zip(hs, runs):
+        stats["family"][h.family] += 1
+        v = seq_judge(h, r)
+        upto = v[1] if v else len(h.ops)
+        for op, e in list(zip(h.ops, h.expected()))[:upto]:
+            stats["operations"][op[0]] += 1
+            if op[0] == "call":
+                calls += 1
+                exact += 1
+                stats["role"][e["role"]] += 1
+                stats["lib_name_class"][e["cls"] + ("" if e["why"] != "missing-lib" else " (missing)")] += 1
+        if v is None:
+            distinct.add(hashlib.sha1(json.dumps([h.to_json()["programs"], h.to_json()["ops"]]).encode()).hexdigest())
+        elif v[0].startswith("harness:"):
+            broken = broken or {"history": h.to_json(), "finding": v[0], "detail": v[3]}
+        else:
+            calls += 1
+            if v[0] not in failing or len(h.ops) < len(failing[v[0]][0].ops):
+                failing[v[0]] = (h, r, v)
+    if broken:
+        ctx.correspondence_broken("sequence-harness(generator defect)", broken)
+
+    known = {k.get("key") for k in ctx.known if k.get("status", "known") == "known"}
+    shrunk = 0
+    for key in sorted(failing):
+        h, r, v = failing[key]
+        if key not in known and shrunk < 4 and not hasattr(h, "corpus_file"):
+            shrunk += 1
+            budget = 30
+            changed = True
+            while changed and budget > 0:
+                changed = False
+                for i in range(len(h.ops) - 1, -1, -1):
+                    if budget <= 0:
+                        break
+                    cand = ffiseqgen.History(h.hid + "s", h.family, h.programs, h.ops[:i] + h.ops[i + 1:], h.note)
+                    if not cand.valid():
+                        continue
+                    budget -= 1
+                    r2 = run_one(cand)
+                    v2 = seq_judge(cand, r2)
+                    if v2 is not None and v2[0] == key:
+                        h, r, v = cand, r2, v2
+                        changed = True
+                        break
+        _, at, kind, detail = v
+        exp = h.expected()
+        e = exp[at] if at < len(exp) else None
+        d = dirs.get(h.hid, libdir)
+        used_libs = libs if not hasattr(h, "libs") else h.libs
+        what = "C17 %s — operation %d (%s) of a history of %d operations: %s" % (
+            key, at, " ".join(str(x) for x in h.ops[at]) if at < len(h.ops) else "end of history", len(h.ops),
+            ("a valid call into library %r (name class: %s) must reach THAT library with the exact argument and return its "
+             "value%s" % (e["lib"].replace(d, "<libdir>"), e["cls"], ", whatever failed before" if "after" in e["role"] else ""))
+            if (e and e.get("why") is None and "lib" in e) else
+            ("the call (%s, library %r, name class: %s) must raise ffi_fail without calling" % (
+                e["why"], e["lib"].replace(d, "<libdir>"), e["cls"])) if (e and e.get("why")) else
+            "the process must survive")
+        ctx.violation(key, what + ": " + kind, {
+            "case": {"operations": [" ".join(str(x) for x in o) for o in h.ops], "failing_operation": at,
+                     "family": h.family, "note": h.note},
+            "expected": detail.get("expected"), "observed": detail.get("observed"), "detail": detail,
+            "expected_transcript_per_operation": exp,
+            "observed_transcript_per_operation": r.segs, "observed_exit_status": r.rc, "observed_stderr_tail": r.err[-1500:],
+            "replay_never_programs": [p.source().replace("@LIBDIR@", d) for p in h.programs],
+            "replay_libraries": [{"file": l.relfile, "c": l.c_source()} for l in used_libs],
+            "replay_how": "build each library (gcc -shared -fPIC -o <file>) inside one directory D; write the programs to files; "
+                          "cd D; LD_LIBRARY_PATH=D <bin/repobuild asan>/ffiseq <script: prog <h> <file> / vm <v> / call <h> <v> <entry> <n> "
+                          "/ vmdel <v> / progdel <h>> (harness/ffi/ffiseq.c, linked -rdynamic: the executable is the library \"host\")"})
+        cf = os.path.join(CORPUS, "seq_" + re.sub(r"[^A-Za-z0-9_.-]", "_", key) + ".json")
+        if key not in known and not hasattr(h, "corpus_file") and not os.path.exists(cf):
+            try:
+                os.makedirs(CORPUS, exist_ok=True)
+                with open(cf, "w") as f:
+                    json.dump(dict(ffiseqgen.store(h, libs, libdir), key=key), f, indent=1)
+            except OSError:
+                pass
+
+    ctx.count(evaluations=calls, nontrivial=len(distinct))
+    ctx.coverage.setdefault("parts", {})["calls_in_sequence"] = {
+        "histories": len(hs), "generated": gen_n, "corpus": len(corpus), "families": dict(stats["family"]),
+        "operations_judged": dict(stats["operations"]), "calls": calls, "calls_with_exact_transcript": exact,
+        "calls_by_role": dict(stats["role"]), "calls_by_library_name_class": dict(stats["lib_name_class"]),
+        "library_names": [repr(n).replace(libdir, "<libdir>") for n in names], "libraries_built": len(libs),
+        "rule": "every library (and the executable = \"host\") exports c17_who/c17_len/c17_rec with its own constant and a "
+                "private c17_only_<tag>; names: the reserved word, its proper prefixes, the word + suffix, paths through "
+                "it, absolute paths, plain names, aliases (name and ./name), each class with existing and missing members. "
+                "Histories: (failure kind: missing symbol / symbol of another loaded library / missing library / nil string "
+                "/ nil record) x (caught / unhandled) x (same VM / another live VM / after vm_delete of the failing VM / two "
+                "programs sharing the library, failing program and VM deleted) — enumerated; one identity history per name; "
+                "random histories over 1..3 programs and up to 4 VMs.  Oracle: the transcript computed from the history alone "
+                "(the DECLARED library's '@C' line with the exact argument and its value; no '@C' line and ffi_fail). "
+                "non-trivial = distinct history whose every operation gave exactly the required transcript"}
+
+
+# ------------------------------------------------------------------------------------------
 def run(ctx):
     t_start = time.time()
     ctx.proofs()
@@ -342,7 +605,8 @@ def run(ctx):
         "(libffi, x86-64 System V), dlopen/dlsym, ownership of argument/return buffers (ffi_decl_delete), "
         "gc_alloc_string copies of returned strings. Tuples use the same BYTECODE_FUNC_FFI_RECORD path and are not "
         "generated (mixed-type tuple literals do not typecheck as record fields). Argument values are sampled "
-        "(corner values + random), signatures are sampled up to arity %d." % (8 if ctx.tier == "quick" else 10))
+        "(corner values + random), signatures are sampled up to arity %d and enumerated by (arity, record size class, "
+        "record position) for arities 9..%d." % (8 if ctx.tier == "quick" else 10, ffigen.MANY_ARGS_MAX[ctx.tier]))
     lib = common.repobuild("asan")
     nevrun = common.cc_driver("nevrun", ["common/nevrun.c"], lib)
     ok, log = common.ocaml_build()
@@ -356,6 +620,9 @@ def run(ctx):
         with common.Lock("ocaml"):
             shutil.copy2(MODEL, os.path.join(tmp, "ffimodel-run"))
         _run(ctx, tmp, nevrun)
+        t0 = time.time()
+        run_sequences(ctx, lib, tmp)
+        ctx.coverage.setdefault("timing", {})["sequences_s"] = round(time.time() - t0, 1)
         # library handle cache (back/dlcache.c): model/proofs in coq/Hash, Properties_C17b.v
         t0 = time.time()
         hashtab.run_dlcache(ctx, lib)
@@ -580,10 +847,10 @@ def _run(ctx, tmp, nevrun):
         "layout: complete enumeration (see layout_exhaustive), non-trivial = shape with padding. calls: corpus first, "
         "then generated families (scalars of every arity, position sweep, register pressure, by-value struct args/returns "
         "of every size 1..40 bytes, small structs under register pressure, nested structs, missing lib/symbol, nil "
-        "string / nil record at every level, and — enumerated, not sampled — every placement of a nil string field / nil "
+        "string / nil record at every level, many-args: every arity 9..%d x record size class x position, and — enumerated, not sampled — every placement of a nil string field / nil "
         "nested record before, after and between non-nil nested records inside one record argument at depth <= 3); non-trivial = distinct (signature, values) whose transcript was exactly "
         "the required one (callee entered with exact values in declared positions and exact result read back, or "
-        "ffi_fail raised without a call).")
+        "ffi_fail raised without a call).") % ffigen.MANY_ARGS_MAX[ctx.tier]
     ctx.coverage["calls"] = {
         "cases": len(cases), "corpus_cases": len(corpus), "generated": len(gen),
         "record_types_checked_against_gcc": n_lay, "struct_images_vs_model": img_n,
